@@ -38,6 +38,15 @@ THEOREMS = [
     "DAVerif.C11.C11_sound_sem_rec_necessary",
     "DAVerif.C11.C11_list_constant_types_matter",
 ]
+# further theorems of these modules (supporting / intermediate statements of the property theorems above): audited
+# for axioms on every run like the rest
+THEOREMS += [
+    "DAVerif.C11.C11_sql_build_erase",
+    "DAVerif.C11.C11_sql_buildChain_erase",
+    "DAVerif.C11.C11_sql_erase_tree",
+    "DAVerif.C11.C11_sql_shape_sem",
+    "DAVerif.C11.C11_sql_shape_sem_with",
+]
 ASSUMPTIONS = [
     "extend/project assignments are Python dicts (distinct keys): hypothesis DictWF of the theorems; proven for every "
     "pipeline obtained from table descriptions by builder calls (C11_reachable_dictWF) and shown necessary in the "
